@@ -6,7 +6,6 @@ use std::fmt::Display;
 use std::fmt::Error;
 use std::fmt::Formatter;
 use std::fs::DirEntry;
-use std::fs::File;
 use std::io::prelude::*;
 use std::str::FromStr;
 use std::time::Duration;
@@ -851,7 +850,7 @@ pub fn get_value(
             }
 
             if let Some(entry) = entry {
-                if let Ok(mut f) = File::open(entry.path()) {
+                if let Ok(mut f) = crate::util::open_for_reading(&entry.path()) {
                     let mut contents = String::new();
                     if f.read_to_string(&mut contents).is_ok() {
                         if contents.contains(&function_arg) {
@@ -868,7 +867,7 @@ pub fn get_value(
         #[cfg(unix)]
         Some(Function::HasXattr) => {
             if let Some(entry) = entry {
-                if let Ok(file) = File::open(entry.path()) {
+                if let Ok(file) = crate::util::open_for_reading(&entry.path()) {
                     if let Ok(xattr) = file.get_xattr(&function_arg) {
                         return Variant::from_bool(xattr.is_some());
                     }
@@ -880,7 +879,7 @@ pub fn get_value(
         #[cfg(unix)]
         Some(Function::Xattr) => {
             if let Some(entry) = entry {
-                if let Ok(file) = File::open(entry.path()) {
+                if let Ok(file) = crate::util::open_for_reading(&entry.path()) {
                     if let Ok(Some(xattr)) = file.get_xattr(&function_arg) {
                         if let Ok(value) = String::from_utf8(xattr) {
                             return Variant::from_string(&value);
@@ -894,7 +893,7 @@ pub fn get_value(
         #[cfg(target_os = "linux")]
         Some(Function::HasCapabilities) => {
             if let Some(entry) = entry {
-                if let Ok(file) = File::open(entry.path()) {
+                if let Ok(file) = crate::util::open_for_reading(&entry.path()) {
                     if let Ok(caps_xattr) = file.get_xattr("security.capability") {
                         return Variant::from_bool(caps_xattr.is_some());
                     }
@@ -906,7 +905,7 @@ pub fn get_value(
         #[cfg(target_os = "linux")]
         Some(Function::HasCapability) => {
             if let Some(entry) = entry {
-                if let Ok(file) = File::open(entry.path()) {
+                if let Ok(file) = crate::util::open_for_reading(&entry.path()) {
                     if let Ok(Some(caps_xattr)) = file.get_xattr("security.capability") {
                         let caps_string = crate::util::capabilities::parse_capabilities(caps_xattr);
                         return Variant::from_bool(caps_string.contains(&function_arg));
